@@ -128,6 +128,15 @@ def check_presentations(st, fam, cls, sr, obs0, scn):
             st.nontrivial += 1
         if o != exp:
             st.violation(fam, "answers-depend-on-how-the-plasmid-is-handed-over-" + pname, dict(scn, presentation=pname), exp, o)
+    # ... and in other spellings (lower case; alternating case): the same answers up to case, at this very rotation
+    up = lambda t: tuple(x.upper() if isinstance(x, str) else x for x in t)
+    for pname, text in (("lower-case", sr.lower()), ("alternating-case", "".join(c.lower() if i % 2 else c.upper() for i, c in enumerate(sr)))):
+        o = observe(cls, gen.crec(text, "r0"))
+        st.scenario("presentation", None, nodes=0)
+        if obs0[0] is True:
+            st.nontrivial += 1
+        if up(o) != up(obs0):
+            st.violation(fam, "answers-depend-on-the-spelling-of-the-rotated-plasmid-" + pname, dict(scn, presentation=pname), up(obs0), up(o))
 
 
 def check_record(st, fam, cls, s, rots, constructions, scn_base):
